@@ -440,21 +440,32 @@ PROPS["C02"] = {
             "the pty harness cuts the output where the Event::Any handler runs (marker written from inside the handler)",
             "validators' messages, list completion, incremental-search prompts, the external printer, tabs and control characters in the "
             "text are outside this check (not in the property's quantifier, or other properties)"],
-        "unproved": ["C02_full_refresh_statement", "C02_move_cursor_statement", "C02_fast_path_statement",
-                     "C02_history_statement", "C02_final_statement"],
+        "unproved": [],
         "level_text": "Lean theorems, for every lawful segmenter, width table and terminal width >= 2, over prompts/lines/hints made of "
                       "line breaks and printable clusters of width 0/1/2: the grapheme loop of calculate_position simulates the cursor "
                       "of a VT100-style terminal (deferred wrap, early wrap of wide characters, zero-width joins); positions computed "
                       "piecewise add up; the cell where the renderer puts the cursor is the insertion point of the declarative spec; "
-                      "the renderer's own newline is written exactly when the terminal has a wrap pending; the fast path of edit_insert "
-                      "keeps believed and real cursor equal with no wrap pending; the final newline leaves the cursor at column 0 below "
-                      "the text. The screen-content statements (full refresh, cursor-only move, fast path = full refresh, composition "
-                      "over histories) are stated, not yet proved; they are covered by the differential check: the real Editor::readline "
+                      "the renderer's own newline is written exactly when the terminal has a wrap pending. Screen content, proved on the "
+                      "cells of the emulator: the bytes of refresh_line (clear the old rows, print prompt+line+hint from the origin, own "
+                      "newline iff wrap pending, ESC[nA, CR, ESC[nC - the CSI parser reads the decimal digits of n as n) lead from any "
+                      "state the renderer believes correctly to the terminal showing exactly the new prompt, line, hint and cursor, "
+                      "nothing left over (C02_full_refresh); a cursor-only move keeps the text and lands on the new insertion point "
+                      "(C02_move_cursor); under the guard of edit_insert the one character written gives what a repaint gives "
+                      "(C02_fast_path); clear_screen; the last move plus the final newline leave the cursor at column 0 below every row "
+                      "of the text (C02_final_full); and the composition (C02_history): for every render log that replays without panic "
+                      "and is coherent (C02_Coherent: texts of the quantified kind; cursor-only moves issued for the displayed line under "
+                      "the read's own prompt; fast path only at the end of a hint-less line; nothing after the final newline), at every "
+                      "Event::Any callback the terminal that has interpreted all bytes shows the callback's prompt, line and cursor with "
+                      "its hint or without any hint. The five statements announced earlier in the vocabulary of calculate_position are "
+                      "refuted as written (C02_*_statement_false: nothing was asked of the segmentation of the old text / of the "
+                      "coherence of the log) and proved with the missing hypotheses (C02_full_refresh_consistent, "
+                      "C02_move_cursor_consistent, C02_fast_path_shows, C02_final_full, C02_history). That the editor model's log is "
+                      "coherent is not proved in Lean; the differential check covers the real Editor::readline "
                       "on a pty at widths 2..40 and 80, its output interpreted by the Lean terminal emulator at every Event::Any "
                       "callback and compared with the from-scratch rendering (oracle) and with the model renderer's screen.",
         "level_note": "Trusted: Lean kernel; the terminal emulator Rl/Term.lean as the property's VT100-style terminal; unicode-width "
-                      "tables via charinfo; pty harness (output cut at the callbacks by a marker written from the handler). Partial claim: "
-                      "see unproved statements. Reading decision: a hint the editor holds may be shown or not; a stale or partial hint fails.",
+                      "tables via charinfo; pty harness (output cut at the callbacks by a marker written from the handler). The composition "
+                      "theorem is about coherent render logs; coherence of the editor model's log is covered by the tie, not proved. Reading decision: a hint the editor holds may be shown or not; a stale or partial hint fails.",
         "assumptions": ["cols >= 2", "no TAB / control character inside prompt, line or hint"],
     }
 
